@@ -16,6 +16,7 @@ package main
 
 import (
 	"fmt"
+	"regexp"
 	"strconv"
 	"strings"
 	"unicode"
@@ -39,8 +40,8 @@ type (
 		Op   string
 		X, Y Expr
 	}
-	CondE   struct{ C, A, B Expr }
-	CallE   struct {
+	CondE struct{ C, A, B Expr }
+	CallE struct {
 		Fun  string // possibly qualified: "html.EscapeString"
 		Args []Expr
 	}
@@ -639,6 +640,7 @@ type FuncContract struct {
 	Line       int
 	PanicFree  bool
 	NoContract bool
+	Holds      []Expr // objects whose type invariants are assumed at entry
 }
 
 func (c *FuncContract) Key() string { return c.Pkg + "::" + c.Name }
@@ -692,15 +694,28 @@ type TypeInv struct {
 	Clause   Clause
 }
 
+type ModSet struct {
+	Name    string
+	Params  []string
+	Targets []Expr
+}
+
+type Macro struct {
+	Params []string
+	Body   string
+}
+
 type Contracts struct {
+	Macros  map[string]*Macro
+	ModSets map[string]*ModSet
 	Writers map[string][]string // type name -> functions allowed to write its fields from outside (assumed to restore the invariant)
-	Invs   []*TypeInv
-	Funcs  map[string]*FuncContract
-	Specs  map[string]*SpecFunc // by bare name (spec names are global)
-	Ghosts map[string]*GhostDecl
-	Lemmas map[string]*Lemma
-	Shared []*SharedDecl
-	Errs   []string
+	Invs    []*TypeInv
+	Funcs   map[string]*FuncContract
+	Specs   map[string]*SpecFunc // by bare name (spec names are global)
+	Ghosts  map[string]*GhostDecl
+	Lemmas  map[string]*Lemma
+	Shared  []*SharedDecl
+	Errs    []string
 }
 
 func newContracts() *Contracts {
@@ -713,7 +728,7 @@ type cline struct {
 	line int
 }
 
-var clauseKeywords = map[string]bool{"package": true, "spec": true, "ghost": true, "lemma": true, "axiom": true, "invariant": true, "writer": true, "func": true, "requires": true, "ensures": true,
+var clauseKeywords = map[string]bool{"package": true, "spec": true, "ghost": true, "lemma": true, "axiom": true, "invariant": true, "writer": true, "modset": true, "macro": true, "holds": true, "func": true, "requires": true, "ensures": true,
 	"modifies": true, "decreases": true, "loop": true, "use": true, "trusted": true, "pure": true, "assert": true, "shared": true, "induct": true, "panicfree": true, "goimpl": true}
 
 func firstWord(s string) string {
@@ -842,8 +857,117 @@ func parseTypedParams(p *parser) ([]Param, error) {
 }
 
 // ParseContracts parses contract lines of one file. pkg is the default package path.
+// expandMacros: `macro NAME(a, b) = text` lines define textual macros usable in every later clause of the run.
+func (cs *Contracts) expandMacros(lines []cline) []cline {
+	var out []cline
+	for pass := 0; pass < 2; pass++ {
+		out = nil
+		for _, l := range lines {
+			if firstWord(l.text) == "macro" {
+				if pass == 1 {
+					continue
+				}
+				rest := strings.TrimSpace(strings.TrimPrefix(l.text, "macro"))
+				eqi := strings.Index(rest, "=")
+				op := strings.Index(rest, "(")
+				cp := strings.Index(rest, ")")
+				if eqi < 0 || op < 0 || cp < op || cp > eqi {
+					cs.Errs = append(cs.Errs, fmt.Sprintf("%s:%d: bad macro", l.file, l.line))
+					continue
+				}
+				var ps []string
+				for _, p := range strings.Split(rest[op+1:cp], ",") {
+					if p = strings.TrimSpace(p); p != "" {
+						ps = append(ps, p)
+					}
+				}
+				if cs.Macros == nil {
+					cs.Macros = map[string]*Macro{}
+				}
+				cs.Macros[strings.TrimSpace(rest[:op])] = &Macro{Params: ps, Body: strings.TrimSpace(rest[eqi+1:])}
+				continue
+			}
+			if pass == 0 {
+				continue
+			}
+			l.text = cs.expandText(l.text, 0)
+			out = append(out, l)
+		}
+	}
+	return out
+}
+
+func (cs *Contracts) expandText(t string, depth int) string {
+	if depth > 5 {
+		return t
+	}
+	for name, m := range cs.Macros {
+		for {
+			idx := -1
+			for from := 0; ; {
+				j := strings.Index(t[from:], name+"(")
+				if j < 0 {
+					break
+				}
+				j += from
+				if j > 0 {
+					c := t[j-1]
+					if c == '_' || c == '.' || (c >= 'a' && c <= 'z') || (c >= 'A' && c <= 'Z') || (c >= '0' && c <= '9') {
+						from = j + 1
+						continue
+					}
+				}
+				idx = j
+				break
+			}
+			if idx < 0 {
+				break
+			}
+			// balanced arguments
+			start := idx + len(name) + 1
+			d, end := 1, -1
+			var args []string
+			last := start
+			for k := start; k < len(t); k++ {
+				switch t[k] {
+				case '(', '[':
+					d++
+				case ')', ']':
+					d--
+					if d == 0 {
+						end = k
+					}
+				case ',':
+					if d == 1 {
+						args = append(args, strings.TrimSpace(t[last:k]))
+						last = k + 1
+					}
+				}
+				if end >= 0 {
+					break
+				}
+			}
+			if end < 0 {
+				break
+			}
+			if strings.TrimSpace(t[last:end]) != "" {
+				args = append(args, strings.TrimSpace(t[last:end]))
+			}
+			body := m.Body
+			if len(args) == len(m.Params) {
+				for i, p := range m.Params {
+					body = regexp.MustCompile(`\b`+regexp.QuoteMeta(p)+`\b`).ReplaceAllString(body, strings.ReplaceAll(args[i], "$", "$$"))
+				}
+			}
+			t = t[:idx] + "(" + body + ")" + t[end+1:]
+		}
+	}
+	return t
+}
+
 func (cs *Contracts) Parse(lines []cline, pkg string) {
 	lines = joinContinuations(lines)
+	lines = cs.expandMacros(lines)
 	var cur *FuncContract
 	var curLemma *Lemma
 	var curSpec *SpecFunc
@@ -893,6 +1017,49 @@ func (cs *Contracts) Parse(lines []cline, pkg string) {
 			}
 			ret := p.typeText()
 			cs.Ghosts[n.s] = &GhostDecl{Pkg: pkg, Name: n.s, Params: ps, Ret: ret}
+		case "modset":
+			// modset name(a, b) = target, target
+			eqi := strings.Index(rest, "=")
+			if eqi < 0 {
+				fail(l, fmt.Errorf("bad modset"))
+				continue
+			}
+			hp, err := newParser(rest[:eqi])
+			if err != nil {
+				fail(l, err)
+				continue
+			}
+			nm := hp.next()
+			if err := hp.expect("("); err != nil {
+				fail(l, err)
+				continue
+			}
+			names, err := parseNameList(hp)
+			if err != nil {
+				fail(l, err)
+				continue
+			}
+			ms := &ModSet{Name: nm.s, Params: names}
+			tp, err := newParser(rest[eqi+1:])
+			if err != nil {
+				fail(l, err)
+				continue
+			}
+			for {
+				e, err := tp.parseExpr()
+				if err != nil {
+					fail(l, err)
+					break
+				}
+				ms.Targets = append(ms.Targets, e)
+				if !tp.accept(",") {
+					break
+				}
+			}
+			if cs.ModSets == nil {
+				cs.ModSets = map[string]*ModSet{}
+			}
+			cs.ModSets[ms.Name] = ms
 		case "writer":
 			f := strings.Fields(rest)
 			if len(f) < 2 {
@@ -1027,6 +1194,22 @@ func (cs *Contracts) Parse(lines []cline, pkg string) {
 					break
 				}
 			}
+		case "holds":
+			if cur == nil {
+				fail(l, fmt.Errorf("holds outside func"))
+				continue
+			}
+			hp, err := newParser(rest)
+			if err != nil {
+				fail(l, err)
+				continue
+			}
+			he, err := hp.parseExpr()
+			if err != nil {
+				fail(l, err)
+				continue
+			}
+			cur.Holds = append(cur.Holds, he)
 		case "pure":
 			if cur != nil {
 				cur.HasMod = true
